@@ -298,6 +298,8 @@ def lax_cases(draw):
             c[name] = mk(draw(st.integers(-3, 3)))
         elif name == "enum":
             c[name] = [mk(i) for i in draw(st.lists(st.integers(-3, 3), min_size=1, max_size=3, unique=True))]
+            if o == "int" and draw(st.integers(0, 2)) == 0:
+                c[name] = {"enumcls": draw(st.sampled_from(["Num", "Plain"]))}    # the range given as an Enum class
         else:
             c[name] = draw(st.integers(1, 4))
         if name in ("max_digits",) and o != "int" and draw(st.booleans()):
@@ -318,6 +320,8 @@ def lax_cases(draw):
             c[name] = "ab" if o == "str" else {"t": "bytes", "v": "6162"}
         else:
             c[name] = ["a", "bc"] if o == "str" else [{"t": "bytes", "v": "61"}, {"t": "bytes", "v": "6263"}]
+            if o == "str" and draw(st.integers(0, 2)) == 0:
+                c[name] = {"enumcls": draw(st.sampled_from(["Color", "Plain"]))}
         vals = st.one_of(st.text(alphabet="abcé1", max_size=7), st.integers(-99999, 99999),
                          st.binary(max_size=6).map(lambda b: {"t": "bytes", "v": b.hex()}),
                          st.sampled_from(["é" * 3, "ab", "a", "bc", ""]))
